@@ -12,6 +12,7 @@ import (
 	"fmt"
 	"hash/fnv"
 	"math/rand"
+	"os"
 	"runtime"
 	"sort"
 	"strconv"
@@ -60,6 +61,15 @@ type pipeTrace struct {
 	seen    map[string]bool
 	waiters map[string]chan struct{}
 	bufs    map[gopacket.SerializeBuffer]int // keeps every buffer alive => addresses are never reused
+
+	// cancel mode (pipecancel.go): at the ck-th token of kind ckind ('W' write started, 'E' error consumed) or
+	// the ck-th consumed request ('S') the context is cancelled and "K" is appended, atomically with the
+	// triggering token
+	ckind  byte
+	ck     int
+	ccnt   int
+	cancel func()
+	fired  chan struct{}
 }
 
 // mark (locked): keys[0] is the token appended; every key wakes its waiter.
@@ -72,6 +82,22 @@ func (t *pipeTrace) mark(keys ...string) {
 			delete(t.waiters, k)
 		}
 	}
+	if t.ckind != 0 && t.ckind != 'S' && keys[0][0] == t.ckind {
+		t.hit()
+	}
+}
+
+// rec performs a bookkeeping action and appends its token atomically (so that a snapshot taken under the
+// trace lock sees both or neither).
+func (t *pipeTrace) rec(f func(), tok string) {
+	if !t.on {
+		f()
+		return
+	}
+	t.mu.Lock()
+	f()
+	t.mark(tok)
+	t.mu.Unlock()
 }
 
 func (t *pipeTrace) add(keys ...string) {
@@ -140,7 +166,8 @@ type pipeCase struct {
 	reqc   chan *scan.Request
 	rcvc   chan error
 	tr     pipeTrace
-	mu     sync.Mutex // writes, errs
+	blockW chan struct{}
+	mu     sync.Mutex // writes, errs (taken after tr.mu when both are held)
 	writes []string
 	errs   []string
 
@@ -179,10 +206,14 @@ func (c *pipeCase) WritePacketData(p []byte) error {
 	cp := append([]byte(nil), p...)
 	h := hex.EncodeToString(cp)
 	fail := len(cp) >= 5 && cp[0] == 0xA5 && c.wfail[int(cp[1])<<24|int(cp[2])<<16|int(cp[3])<<8|int(cp[4])]
-	c.mu.Lock()
-	c.writes = append(c.writes, h)
-	c.mu.Unlock()
-	c.tr.add(fmt.Sprintf("W%s:%d", h, map[bool]int{true: 1}[fail]))
+	c.tr.rec(func() {
+		c.mu.Lock()
+		c.writes = append(c.writes, h)
+		c.mu.Unlock()
+	}, fmt.Sprintf("W%s:%d", h, map[bool]int{true: 1}[fail]))
+	if c.blockW != nil {
+		<-c.blockW // blocked writer (cancel mode): released after the error stream ended
+	}
 	if c.slow > 0 {
 		time.Sleep(c.slow)
 	} else {
@@ -255,13 +286,31 @@ func runPipe(f []string) string {
 		c.ids[reqs[i]] = i
 	}
 	var d, cl int
+	co, isCancel := parsePipeCancel(opts)
+	if isCancel {
+		c.tr.on = true
+	}
 	panicked, msg := hx.Recover(func() {
-		d, cl = c.run(n, rcvK, reqs, rand.New(rand.NewSource(pipeSeed(f))), pipeDelayed(f))
+		if isCancel {
+			cl = c.runCancel(n, rcvK, reqs, co)
+		} else {
+			d, cl = c.run(n, rcvK, reqs, rand.New(rand.NewSource(pipeSeed(f))), pipeDelayed(f))
+		}
 	})
-	c.mu.Lock()
-	defer c.mu.Unlock()
 	c.tr.mu.Lock()
 	defer c.tr.mu.Unlock()
+	c.mu.Lock()
+	defer c.mu.Unlock()
+	if isCancel { // d = `done` was seen closed
+		for _, tok := range c.tr.toks {
+			if tok == "D" {
+				d = 1
+			}
+		}
+		if co.fullerr {
+			c.tr.on = false // hundreds of items in flight: no trace, Spec verdict only
+		}
+	}
 	if panicked {
 		atomic.StoreInt32(&c.bad, 1)
 		c.errs = append(c.errs, "PANIC:"+strings.NewReplacer(",", "_", ";", "_").Replace(strings.Join(strings.Fields(msg), "_")))
@@ -429,11 +478,19 @@ func pipeBucketN(n int) string {
 }
 
 func pipelineComponent(r *hx.Run) {
-	r.Rule = "case = (worker count N, request kind string over {o good, r request-error, f fill-error}, ids whose write fails, number of receiver errors, mode steer | free[,slow=us]); steer = one item in flight with full event trace incl. pooled-buffer identities, free = everything concurrent so that every channel buffer (100, N*100) overflows, error consumer started late in a quarter of the cases; non-trivial class = N bucket {1,2,3-4,5-8,9-16,17-32,33-64} / mode / request-count bucket {empty, small<=50, medium<=1000, large} [/manyerr: > 100 errors in total] [/slow: writer sleeps]"
+	r.Rule = "case = (worker count N, request kind string over {o good, r request-error, f fill-error}, ids whose write fails, number of receiver errors, mode steer | free[,slow=us]); steer = one item in flight with full event trace incl. pooled-buffer identities, free = everything concurrent so that every channel buffer (100, N*100) overflows, error consumer started late in a quarter of the cases; non-trivial class = N bucket {1,2,3-4,5-8,9-16,17-32,33-64} / mode / request-count bucket {empty, small<=50, medium<=1000, large} [/manyerr: > 100 errors in total] [/slow: writer sleeps]; cancel mode = the same pipeline cancelled at the k-th consumed request / started write / consumed error for every k of short runs (N 1..3, <= 6 requests, <= 2 receiver errors), plain | error consumer starting at the cancel | slow writer | writer blocked until the error stream ended, plus runs with > 300 errors and a stalled consumer (every error channel full); class = N / cancel / trigger kind and position / mode"
 	rng, m := r.Rng, 1
 	if r.Tier == "thorough" {
 		m = 9
 	}
+	// cancel mode (pipecancel.go): own PRNG stream so that the other jobs do not depend on it; run in a child
+	cjobs := pipeCancelJobs(rand.New(rand.NewSource(r.Seed^0x63616e63)), r.Tier)
+	if os.Getenv("SXDIFF_CHILD") == "1" {
+		pipeCancelChild(cjobs, os.Getenv("SXDIFF_OUT"), os.Getenv("SXDIFF_ONLY"))
+		return
+	}
+	cgot := make(chan map[int]string, 1)
+	go func() { cgot <- pipeCancelRun(r, cjobs) }()
 	st := func(n, kinds, wfail, rcvK string) []string { return []string{n, kinds, wfail, rcvK, "steer"} }
 	jobs := [][]string{st("1", "-", "-", "0"), st("3", "-", "-", "3"), st("1", "o", "-", "0"), st("2", "o", "0", "1"),
 		st("1", "r", "-", "0"), st("4", "f", "-", "0"), st("2", "rfrfoo", "4,5", "2"), st("64", "rrrrrrrrrr", "-", "3"),
@@ -524,5 +581,15 @@ func pipelineComponent(r *hx.Run) {
 			r.Count("late-consumer")
 		}
 		r.Case(class, append(append([]string{"pipe"}, j...), outs[i])...)
+	}
+	cout := <-cgot
+	for i, j := range cjobs {
+		obs, ok := cout[i]
+		if !ok {
+			continue // not run: the child died before it and the retry budget is spent (noted)
+		}
+		r.Count("mode:cancel")
+		r.Count("cancel-at:" + j[4][7:8])
+		r.Case(pipeCancelClass(j), append(append([]string{"pipe"}, j...), obs)...)
 	}
 }
